@@ -120,6 +120,14 @@ def cases_for(tier):
             for m in modes:
                 add('seq%d:%d:%s' % (n, k, m), text + ('\n' if r.random() < 0.7 else ''), m, 'short-seq')
             k += 1
+    # constant expressions whose VALUE would be astronomically large: compiling is not evaluating (a compiler that folds constants has to bound what it folds)
+    bigc = ['2 ** 10 ** 10', '9 ** 9 ** 9', '1 << (1 << 40)', '18446744073709551616 ** 1000000000', '(2 ** 64) ** (10 ** 9)', '-9223372036854775808 ** 9223372036854775807', '(10 ** 30) ** (10 ** 9)',
+            '"a" * 10 ** 12', '[0] * 10 ** 12', 'b"x" * 2 ** 40', '(1,) * 10 ** 15', '2.0 ** 10 ** 10', '(3 ** 40) ** (7 ** 20)', '(1 << 70) << (1 << 35)', '-(2 ** 64) ** 999999999', '(2 ** 64 + 1) ** 2 ** 40',
+            '0xffffffffffffffffffff ** 0xffffffff', '10 ** 10 ** 10 ** 10', '(2 ** 63) ** (2 ** 31)', '~(1 << 64) ** (1 << 33)']
+    for i, e in enumerate(bigc):
+        add('bigconst:%d:eval' % i, e, 'eval', 'huge-constant-expression')
+        add('bigconst:%d:exec' % i, 'def never_called():\n    return ' + e + '\nx = 1\n', 'exec', 'huge-constant-expression')
+        add('bigconst:%d:single' % i, 'if 0: y = ' + e + '\n', 'single', 'huge-constant-expression')
     nrand = 8000 if tier == 'quick' else 200000
     for i in range(nrand):
         n = r.randrange(3, 200 if i % 10 == 0 else 30)
